@@ -22,7 +22,7 @@ HARNESS = os.path.join(VERIF, "harness")
 OUT = os.path.join(VERIF, "out")
 BIN = os.path.join(VERIF, "bin") if REPO == "/repo" else os.path.join(OUT, "bin-" + REPO.strip("/").replace("/", "_"))
 EVIDENCE = os.path.join(VERIF, "evidence")
-if os.environ.get("VIP_REPO"):
+if os.environ.get("VIP_REPO") or (len(sys.argv) > 1 and sys.argv[1] == "PXX"):
     # a run against a scratch tree (mutation self-test) never touches the evidence of /repo
     EVIDENCE = os.path.join(VERIF, "out", "evidence-scratch")
 REPLAYS = os.path.join(VERIF, "replays")
